@@ -31,7 +31,7 @@ P = {
    text="Atomicity proved on the model: a DeliverTx that returns a non-zero code leaves the observable state (balances, nonces, names, stakes, unbonding, rewards, proposals, parameters, fee sum, limiter) unchanged up to empty account records, for every failure point of every transaction type, under an explicit fee no-wrap bound.",
    note="Trusted: Lean kernel; model validated differentially; EVM failure = nothing synced out (oracle); empty account records created by failed transactions are identified with absent accounts (no query distinguishes them).",
    tech="Lean 4 case analysis over validation/execution failure points + differential correspondence + before/after dump monitor"),
- "C06": dict(args=["-checktx", "-queries", "-replicas"], facts=["durable_outside_commit"],
+ "C06": dict(args=["-checktx", "-queries", "-replicas"], facts=["commit_order"],
    text="Non-interference proved by unwinding on the model: CheckTx changes only the mempool views, consensus operations never read them, queries are pure; hence the outputs and consensus state of any schedule equal those of the schedule with all CheckTx/Query calls erased, and the mempool view is reset at commit.",
    note="Trusted: Lean kernel; model validated differentially with CheckTx/Query lines interleaved; the quiet-vs-noisy replica run on real nodes supports the theorem. The defect that made this false (limiter shared with CheckTx) was repaired in /repo (fix commit c20f06e).",
    tech="Lean 4 unwinding / non-interference proof + differential correspondence + quiet-vs-noisy replica monitor"),
